@@ -15,7 +15,7 @@ fn writer_program(ctx: &Ctx) -> Program {
     let kind = ctx.pick("program-kind", 2);
     if kind == 0 {
         // hand-listed shapes shared with C15
-        let k = ctx.pick("special", 12);
+        let k = ctx.pick("special", crate::c15::N_SPECIAL);
         crate::c15::special(k)
     } else {
         pick_program(ctx, if ctx.tier_thorough { 3 } else { 2 })
